@@ -1,7 +1,7 @@
 (* One entry point for the OCaml runner: op name and byte-string arguments
    in, (result bytes, tag text) out.  All structure is decoded here, in Coq. *)
 From Coq Require Import NArith ZArith List Bool String.
-From GJ Require Import Base.Bytes Base.Show Model.Int Model.StrEnc Model.StrDec Model.Compact Model.Iface Model.Path Spec.Json.
+From GJ Require Import Base.Bytes Base.Show Model.Int Model.StrEnc Model.StrDec Model.Compact Model.Iface Model.Path Model.KeyBitmap Spec.Json.
 Import ListNotations.
 Open Scope N_scope.
 Open Scope string_scope.
@@ -17,6 +17,13 @@ Definition show_ures (r : ures) : list N * list N :=
          match st with None => str "-" | Some z => show_Z z end,
        if err then match st with Some _ => str "PartialStoreBeforeError" | None => [] end else [])
   end.
+
+Fixpoint split_on_aux (sep : N) (l cur : list N) : list (list N) :=
+  match l with
+  | [] => [rev cur]
+  | c :: r => if N.eqb c sep then rev cur :: split_on_aux sep r [] else split_on_aux sep r (c :: cur)
+  end.
+Definition split_on (sep : N) (l : list N) : list (list N) := split_on_aux sep l [].
 
 Definition show_cres (r : cres (list N)) : list N :=
   match r with
@@ -65,4 +72,9 @@ Definition dispatch (op : list N) (args : list (list N)) : list N * list N :=
      | BStuck => str "stuck" | BFuel => str "fuel" | BErr => [69]
      | BOk nodes sq dq => 79 :: print_path nodes ++ [32] ++ show_bool sq ++ show_bool dq
      end, [])
+  else if list_eqb op (str "c15.bitmap") then
+    (* arg0 = sorted lower-cased names separated by LF, arg1 = decoded key *)
+    (let names := split_on 10 (arg 0 args) in
+     match bm_match (if Nat.leb (List.length names) 8 then 8 else 16)%nat names (arg 1 args) with
+     | MStuck => str "stuck" | MNone => [78] | MField i => 70 :: show_N (N.of_nat i) end, [])
   else (str "no-model", []).
